@@ -770,6 +770,14 @@ def oracle(inp):
       imp = numpy.fmax(0.0, float(qei.best_value) - Y.min(axis=1))
       est, se2 = float(imp.mean()), float(imp.std() / math.sqrt(N2))
       se1 = float(imp.std() / math.sqrt(N))
+      # the SAMPLE standard deviation is a usable error bar only when improving draws are common: with a handful of improving draws
+      # among 2e5 (improvement probability ~1e-5) both estimates are compound-Poisson, not normal, and the sample deviation
+      # underestimates the spread by an order of magnitude (false alarm of the thorough tier, seed 12345: 1.5e-5 against 3.8e-7 on the
+      # unchanged tree).  Fewer than 200 expected improving draws in the library's sample: use the rigorous bound instead -
+      # max(0, best - min_j Y_j) is 1-Lipschitz in Y for the sup norm, so its variance is at most max_j Var(Y_j)
+      if N * float((imp > 0).mean()) < 200:
+        sd_bound = math.sqrt(max(float(numpy.diag(rcov).max()), 1e-300))
+        se1, se2 = sd_bound / math.sqrt(N), sd_bound / math.sqrt(N2)
       # rounding of the library's posterior: forward error of the Cholesky solves, eps * cond(K) relative to the magnitudes (reading of C02)
       scale = max(1.0, abs(est), float(numpy.abs(rmean).max()), abs(float(qei.best_value)))
       if rcond <= 1e10 and abs(got - est) > 6 * (se1 + se2) + (1e-9 + 1e-14 * rcond) * scale:
